@@ -2083,3 +2083,153 @@ func zzC08e2CloseBoundExpiresDuringList() {
 	conn.Close(ctx)
 	vf.Reach("end")
 }
+
+// C02.f: reliable upstream across an outage at an arbitrary position of the chunk stream: three
+// chunks are written; the transport dies after the broker has received k of them and acknowledged j
+// of those; after the recovery the broker acknowledges what it receives. Every accepted point
+// reaches the broker with its payload in the chunk number it was first given, a number never carries
+// two different contents, unacknowledged chunks are retransmitted after the resume (under the
+// original stream id), and the close request reports what was written.
+func zzC02fOutagePositions() {
+	b := zzNewBroker()
+	zzServeStreams(b)
+	serve := b.handler
+	type point struct {
+		elapsed time.Duration
+		pay     byte
+	}
+	type rec struct {
+		conn int
+		seq  uint32
+		pts  []point
+	}
+	var received []rec
+	ackAfterRecovery := false
+	var resumes []*message.UpstreamResumeRequest
+	var closeReq *message.UpstreamCloseRequest
+	b.handler = func(t *zzTr, m message.Message) bool {
+		switch r := m.(type) {
+		case *message.UpstreamChunk:
+			var pts []point
+			for _, g := range r.StreamChunk.DataPointGroups {
+				for _, p := range g.DataPoints {
+					pay := byte(0)
+					if len(p.Payload) == 1 {
+						pay = p.Payload[0]
+					}
+					pts = append(pts, point{p.ElapsedTime, pay})
+				}
+			}
+			received = append(received, rec{b.dials, r.StreamChunk.SequenceNumber, pts})
+			if ackAfterRecovery {
+				t.in <- zzEncode(&message.UpstreamChunkAck{StreamIDAlias: r.StreamIDAlias, Results: []*message.UpstreamChunkResult{{SequenceNumber: r.StreamChunk.SequenceNumber, ResultCode: message.ResultCodeSucceeded}}})
+			}
+			return true
+		case *message.UpstreamResumeRequest:
+			resumes = append(resumes, r)
+		case *message.UpstreamCloseRequest:
+			closeReq = r
+		}
+		return serve(t, m)
+	}
+	ev := &zzEvents{}
+	conf := b.config()
+	n := 0
+	randomString = func() string { n++; return "call-" + string(rune('a'+n)) }
+	conn, err := ConnectWithConfig(conf)
+	vf.Assume(err == nil)
+	vf.Settle()
+	vf.Deviations(zzDeviations)
+	ctx := context.Background()
+	tr1 := b.last()
+	up, err := conn.OpenUpstream(ctx, "session", WithUpstreamFlushPolicyNone(), WithUpstreamQoS(message.QoSReliable), WithUpstreamResumedEventHandler(ev), WithUpstreamClosedEventHandler(ev), WithUpstreamCloseTimeout(time.Second))
+	vf.Assume(err == nil)
+	vf.Settle()
+	id := &message.DataID{Name: "n", Type: "t"}
+	pays := []byte{vf.U8("p1"), vf.U8("p2"), vf.U8("p3")}
+	k := vf.Choose("received.before.the.outage", 4)
+	j := vf.Choose("acked.before.the.outage", 4)
+	vf.Assume(j <= k)
+	written := 0
+	write := func() {
+		vf.Assert("write-accepted", up.WriteDataPoints(ctx, id, &message.DataPoint{ElapsedTime: time.Duration(written + 1), Payload: []byte{pays[written]}}) == nil && up.Flush(ctx) == nil)
+		written++
+		vf.Settle()
+	}
+	for written < k {
+		write()
+	}
+	for s := 1; s <= j; s++ {
+		tr1.push(&message.UpstreamChunkAck{StreamIDAlias: 1, Results: []*message.UpstreamChunkResult{{SequenceNumber: uint32(s), ResultCode: message.ResultCodeSucceeded}}})
+	}
+	vf.Settle()
+	// the transport dies; the remaining points are written during the outage (they may share a chunk) or after it
+	tr1.Close()
+	vf.Settle()
+	ackAfterRecovery = true
+	if vf.Choose("rest.written.during.the.outage", 2) == 1 {
+		for written < 3 {
+			werr := up.WriteDataPoints(ctx, id, &message.DataPoint{ElapsedTime: time.Duration(written + 1), Payload: []byte{pays[written]}})
+			vf.Assert("write-accepted-during-outage", werr == nil)
+			written++
+		}
+		go up.Flush(ctx)
+		vf.Settle()
+	}
+	vf.Advance(11 * time.Second)
+	vf.Advance(2 * time.Second)
+	vf.Assert("recovered", b.dials == 2 && ev.upResumed == 1 && ev.upClosed == 0)
+	vf.Assert("resumed-under-the-original-stream-id", len(resumes) == 1 && resumes[0].StreamID == up.ID)
+	for written < 3 {
+		write()
+	}
+	vf.Settle()
+	cerr := up.Close(ctx)
+	vf.Settle()
+	vf.Assert("close-ok", cerr == nil)
+	// a sequence number never carries two different contents
+	maxSeq := uint32(0)
+	for i, r := range received {
+		if r.seq > maxSeq {
+			maxSeq = r.seq
+		}
+		for _, q := range received[:i] {
+			if q.seq == r.seq {
+				same := len(q.pts) == len(r.pts)
+				for x := 0; same && x < len(r.pts); x++ {
+					same = q.pts[x] == r.pts[x]
+				}
+				vf.Assert("a-sequence-number-always-carries-the-same-content", same)
+			}
+		}
+	}
+	// every accepted point reached the broker with its payload
+	for i := 0; i < 3; i++ {
+		got := false
+		for _, r := range received {
+			for _, p := range r.pts {
+				if p.elapsed == time.Duration(i+1) {
+					vf.Assert("payload-intact", p.pay == pays[i])
+					got = true
+				}
+			}
+		}
+		vf.Assert("every-accepted-point-reached-the-broker", got)
+	}
+	// chunks received but not acknowledged before the outage come again, once, on the new connection
+	for s := j + 1; s <= k; s++ {
+		again := 0
+		for _, r := range received {
+			if r.seq == uint32(s) && r.conn == 2 {
+				again++
+			}
+		}
+		vf.Assert("unacknowledged-chunk-retransmitted-after-resume", again == 1)
+	}
+	vf.Assert("numbers-without-gaps", maxSeq >= 1 && maxSeq <= 3)
+	vf.Assert("close-totals-equal-what-was-written", closeReq != nil && closeReq.TotalDataPoints == 3 && closeReq.FinalSequenceNumber == maxSeq)
+	conn.Close(ctx)
+	vf.Reach("end")
+}
+
+func zzC02fOutagePositionsDev1() { zzDeviations = 1; zzC02fOutagePositions() }
